@@ -335,12 +335,12 @@ _surfs("EvalVelMtx", "aerodynamics.eval_mtx.EvalVelMtx", cfgs=MULTI_GP, cost=15,
 from ._generic import implicit_contract
 
 
-@job("deriv.SolveMatrix", ("C01", "C02", "C03", "C05", "C07"), cfgs=MULTI[:2] + MULTI[3:4], ranges=[(r"^solve\d+_x", 1e-12, 1.0, "log")])
+@job("deriv.SolveMatrix", ("C01", "C02", "C03", "C04", "C05", "C06", "C07", "C08", "C09", "C19"), cfgs=MULTI[:2] + MULTI[3:4], ranges=[(r"^solve\d+_x", 1e-12, 1.0, "log")])
 def _solve_matrix(env, **cfg):
     implicit_contract(env, lambda: cls("aerodynamics.solve_matrix.SolveMatrix")(surfaces=two_surfaces(cfg)))
 
 
-@job("deriv.FEM", ("C01", "C02", "C03", "C10"), cfgs=product(NY[:3], SYM_Q, TUBE), cost=10, ranges=[(r"^solve\d+_x", 1e-12, 1.0, "log")])
+@job("deriv.FEM", ("C01", "C02", "C03", "C04", "C07", "C10", "C15", "C16"), cfgs=product(NY[:3], SYM_Q, TUBE), cost=10, ranges=[(r"^solve\d+_x", 1e-12, 1.0, "log")])
 def _fem(env, **cfg):
     def symmetric_blocks(env, h, ins):
         # precondition of FEM (postcondition of LocalStiffTransformed, proved by the kchain.* jobs): every 12x12
